@@ -174,6 +174,14 @@ def xml2dict(string):
     return _recurse(root)
 
 
+def _is_number(text):
+    try:
+        float(text)
+    except ValueError:
+        return False
+    return True
+
+
 def kvn2dict(string):
     """Convert KVN (Key-Value Notation) to a dictionnary for easy reuse
 
@@ -197,10 +205,12 @@ def kvn2dict(string):
         key = key.strip()
         value = value.strip()
 
-        if "[" in value:
-            # There is a unit field
-            value, sep, unit = value.partition("[")
-            attrib = {"units": unit.rstrip("]")}
+        unit_field = re.match(r"^(\S+)\s*\[([^\[\]]*)\]$", value)
+        if unit_field and _is_number(unit_field.group(1)):
+            # There is a unit field (after a numerical value only: names and free
+            # text may contain brackets of their own)
+            value, unit = unit_field.group(1) + " ", unit_field.group(2)
+            attrib = {"units": unit}
         else:
             attrib = {}
 
